@@ -36,6 +36,7 @@ sys.path.insert(0, os.path.join(C.ROOT, "gen"))
 
 PID = "C09"
 BD = os.path.join(C.BUILD, PID)
+RUN = os.path.join(BD, "run-%d" % os.getpid())  # concurrent runs of this check must not share scratch files
 REQ = ("From Coq Require Import ZArith QArith List Bool String Ascii.\n"
        "From Verif Require Import C09.Model gen.CmdLine C09.Tools C09.Sym.\n"
        "Import ListNotations.\nOpen Scope Z_scope.\nOpen Scope string_scope.\n")
@@ -769,12 +770,17 @@ def torch_gen_case(ctx, I, idx):
     if r.random() < 0.3:
         r.shuffle(utts)
     if multi:
-        channel = r.choice([0, 1, 1, 2, None if r.random() < 0.3 else 0, -2 if r.random() < 0.15 else 1])
+        if r.random() < 0.7:  # mostly a channel every matrix has
+            channel = r.randrange(min(u_["nchan"] for u_ in utts))
+        else:
+            channel = r.choice([0, 1, 2, None, -2 if r.random() < 0.3 else 1])
     else:
-        channel = r.choice([None, None, None, 0 if r.random() < 0.5 else None])
+        channel = r.choice([None, None, None, None, 0 if r.random() < 0.5 else None])
     manifest = None
     if r.random() < 0.4:
-        listed = [u_["id"] for u_ in utts if r.random() < 0.4]
+        # lines as an earlier run wrote them, sometimes hand-edited (blanks around an id, an unknown id)
+        listed = [u_["id"] + r.choice(["", "", "", " ", "\t"]) for u_ in utts if r.random() < 0.4]
+        listed = [(" " + x) if r.random() < 0.08 else x for x in listed]
         extra = ["ghost"] if r.random() < 0.3 else []
         manifest = listed + extra
     mapfmt = r.choice(["plain", "plain", "blank-lines", "trailing-space", "crlf"])
@@ -1004,7 +1010,7 @@ def eval_cases(ctx, bodies, tag):
     if not getattr(ctx, "can_eval", True):
         return [None] * len(bodies)  # the model does not build: already reported; the direct search still runs
     shard = 60
-    files = [("%s_%d" % (tag, i // shard), "".join(bodies[i:i + shard])) for i in range(0, len(bodies), shard)]
+    files = [("%s_%d_%d" % (tag, os.getpid(), i // shard), "".join(bodies[i:i + shard])) for i in range(0, len(bodies), shard)]
     res = C.coq_eval_many(ctx, files, REQ)
     out = []
     for (name, _), (ans, log), base in zip(files, res, range(0, len(bodies), shard)):
@@ -1021,7 +1027,7 @@ def eval_cases(ctx, bodies, tag):
 
 def check_kaldi(ctx, I, ncases):
     np = I.np
-    d = os.path.join(BD, "kaldi")
+    d = os.path.join(RUN, "kaldi")
     runs, bodies = [], []
     for idx in range(ncases):
         case = kaldi_gen_case(ctx, I, idx)
@@ -1143,7 +1149,7 @@ def same_obs(np, a, b):
 
 def check_torch(ctx, I, ncases):
     np, torch = I.np, I.torch
-    d = os.path.join(BD, "torch")
+    d = os.path.join(RUN, "torch")
     runs, bodies = [], []
     for idx in range(ncases):
         case = torch_gen_case(ctx, I, idx)
@@ -1190,7 +1196,7 @@ def check_torch(ctx, I, ncases):
                             why = "%s: %s" % (fn, w)
                             break
                     if why is None and case["manifest"] is not None:
-                        wantm = case["manifest"] + [u for (u, _, _) in view if u not in set(case["manifest"])]
+                        wantm = case["manifest"] + [u for (u, _, _) in view if u in exp]
                         if obs["manifest_after"] != wantm:
                             why = "manifest %r, expected %r" % (obs["manifest_after"], wantm)
                 if why:
@@ -1317,10 +1323,10 @@ def check_plans(ctx, I, n):
             ctx.case(dict(plan=(L, S, style, kaldi, N)), nontrivial=True)
     body = "Definition fr (o : option (Z * Z * Z)) : Z := match o with None => 0 | Some (n, _, _) => n end.\n"
     body += "Definition rows := %s.\n" % C.zlist([(a, b, c, d, e, f, g) for (a, b, c, d, e, f, g) in rows])
-    body += ("Eval vm_compute in (map (fun '(L, S, c, k, N, a, b) => (fr (np_stft_plan L S c k N), fr (pt_stft_plan L S (negb c) k N))) rows).\n")
+    body += ("Eval vm_compute in (map (fun '(fl, fs, c, k, n, a, b) => (fr (np_stft_plan fl fs c k n), fr (pt_stft_plan fl fs (negb c) k n))) rows).\n")
     if not getattr(ctx, "can_eval", True):
         return
-    ans, log = C.coq_eval(ctx, "plans", body, REQ)
+    ans, log = C.coq_eval(ctx, "plans_%d" % os.getpid(), body, REQ)
     if ans is None:
         ctx.fail("generated STFT framing definitions could not be evaluated", dict(correspondence="gen/CmdLine.v np_stft_plan", log_tail=log[-1200:]),
                  kind="correspondence", no_input=True)
@@ -1337,7 +1343,7 @@ def check_plans(ctx, I, n):
 def check_regressions(ctx, I):
     """the two defects found while building this check (fixed in 57763aa, 85d1ba6)"""
     np = I.np
-    d = os.path.join(BD, "regress")
+    d = os.path.join(RUN, "regress")
     base = {"name": "stft", "bank": {"name": "fbank", "num_filts": 10, "low_hz": 20, "high_hz": 4000, "sampling_rate": 8000},
             "frame_length_ms": 25, "frame_shift_ms": 10}
     for key, cfg, lens, extra in (
@@ -1380,6 +1386,7 @@ def run(ctx):
         "plus STFT frame counts of compute_full and the PyTorch port against the generated framing definitions")
     can_eval = False
     if ok_gen:
+        regenerate(ctx) if not os.path.exists(os.path.join(C.COQ, "gen", "CmdLine.v")) else None
         ok, out = C.coq_make(["C09/Sym.v"])
         if not ok:
             ctx.fail("the generated model no longer compiles with the entry points", dict(correspondence="coq/C09/Sym.v", log_tail=out[-1500:]),
@@ -1399,7 +1406,16 @@ def run(ctx):
         "argparse, the alias factories, the YAML/JSON loaders, Kaldi table I/O, torch.save/load and DataLoader are parameters of the model, exercised only by the correspondence",
         "PyTorchDither is compared with the library's Dither fed from torch's generator (same seed), since the two noise sources differ",
     ]
-    return C.finish(ctx, "proof")
+    rc = C.finish(ctx, "proof")
+    if rc == 0:  # keep the scratch files of a failing run for inspection
+        shutil.rmtree(RUN, ignore_errors=True)
+        for fn in os.listdir(BD):
+            if ("_%d_" % os.getpid()) in fn or fn.startswith("plans_%d." % os.getpid()):
+                try:
+                    os.remove(os.path.join(BD, fn))
+                except OSError:
+                    pass
+    return rc
 
 
 def replay(ctx, rp):
@@ -1411,7 +1427,7 @@ def replay(ctx, rp):
     if not case or "tool" not in case:
         print(json.dumps(f, indent=1, default=str)[:3000])
         return 0
-    d = os.path.join(BD, "replay")
+    d = os.path.join(RUN, "replay")
     if case["tool"] == "kaldi":
         kaldi_materialise(I, case, d)
         args = kaldi_args(case, d)
